@@ -39,6 +39,6 @@ def obligations(tier):
     for part in range(20):
         obls.append(CH("encoder_structure_p%02d" % part, "props.h_C16", "struct", 120 if tier == "quick" else 600, mode="E1s",
                        functions=FE, env={"VERIF_PART": str(part)},
-                       bounds="tree shape %d of 4, key set %d of 5 (incl. astral-vs-high-BMP, escapes), leaf kinds null/bool/str/int, all insertion "
+                       bounds="tree shape %d of 4, key set %d of 5 (incl. astral-vs-high-BMP, escapes), leaf kinds null/bool/str/int/float (15 doubles incl. non-finite, known ES6 answers), all insertion "
                               "orders; selector-enumerated%s" % (part // 5, part % 5, " (third leaf kind tied)" if tier == "quick" else "")))
     return obls
